@@ -402,7 +402,16 @@ def run_case(case):
         compare_nets(net, net2, vs, where, tag)
         try:
             if not pp.nets_equal(net, net2):
-                vs.append(viol("nets_equal_false", "%s: pandapipes.nets_equal(original, loaded) is False" % where, **tag))
+                # cause: is the infinite default storage bound (inf -> NaN through JSON) the only difference?
+                cause = "other"
+                if "mass_storage" in net and len(net.mass_storage) and "mass_storage" in net2:
+                    a_, b_ = copy.deepcopy(net), copy.deepcopy(net2)
+                    for n_ in (a_, b_):
+                        col = n_.mass_storage["max_m_stored_kg"].astype(float)
+                        n_.mass_storage["max_m_stored_kg"] = col.replace([np.inf], np.nan).fillna(-1.0)
+                    if pp.nets_equal(a_, b_):
+                        cause = "mass_storage_inf"
+                vs.append(viol("nets_equal_false", "%s: pandapipes.nets_equal(original, loaded) is False" % where, cause=cause, **tag))
         except Exception as e:
             vs.append(viol("nets_equal_raises", "%s: %s" % (where, e), **tag))
         # same calculation results
